@@ -217,6 +217,9 @@ def step (s : State) (e : Ev) : Except Reject State :=
             else .error (.guard "exit: top-level token count" p)
           else
             if contrib x ≠ 1 then .error (.guard "exit: inherited-jobserver process must leave with exactly its own token" p)
+            -- (an IOU on the cheat pipe is read by the owner of the job the process runs in; at the top of a redo tree
+            -- under a foreign jobserver there is none: the token must be a real one)
+            else if x.limbo ≠ 0 then .error (.guard "exit: inherited-jobserver process leaves an IOU nobody will read" p)
             else .ok { s with procs := del s.procs p, total := s.total - 1 }
 
 def run (s : State) : List Ev → Except (Nat × Reject) State
